@@ -100,6 +100,43 @@ theorem C18_delete_table (sc : Schema) (cfg : Cfg) (t : Table) (args : Args) (w 
   simp only [stmtPhase1, apply, Except.ok.injEq, Prod.mk.injEq] at h
   exact h.1.symm
 
+/-- INSERT … ON DUPLICATE KEY UPDATE: the before image is the projection (all columns) of exactly the
+    stored rows whose key is among the statement's keys; with none of them the item is an INSERT item
+    with an empty before image, otherwise an UPDATE item whose after image holds the same keys (the rows
+    the same statement inserted are recorded by `extraItems` as an INSERT item of their own); the lock
+    keys are the keys of all rows stored under the statement's keys afterwards -/
+theorem C18_upsert_images (sc : Schema) (cfg : Cfg) (t : Table) (args : Args) (rows : List (List Expr))
+    (asg : List (Nat × UpSrc)) (t' : Table) (item : Item) (keys : List Key)
+    (h : stmtPhase1 sc cfg t args (.upsert rows asg) = .ok (t', item, keys)) :
+    let newKeys := (rows.map fun es => es.map (evalE [] args)).map (keyOf sc)
+    let hit := t.filter fun r => newKeys.contains (keyOf sc r)
+    keys = (t'.filter fun r => newKeys.contains (keyOf sc r)).map (keyOf sc) ∧
+    (hit = [] → item.kind = .insert ∧ item.before = []) ∧
+    (hit ≠ [] → item.kind = .update ∧ item.before = hit.map (project sc (allCols sc)) ∧
+      item.after = ((t'.filter fun r => newKeys.contains (keyOf sc r)).filter
+        fun r => (hit.map (keyOf sc)).contains (keyOf sc r)).map (project sc (allCols sc))) := by
+  intro newKeys hit
+  simp only [stmtPhase1, apply, Except.ok.injEq, Prod.mk.injEq] at h
+  obtain ⟨ht, hi, hk⟩ := h
+  subst ht
+  refine ⟨hk.symm, ?_, ?_⟩
+  · intro hh
+    have hE : hit.isEmpty = true := by simp [hh]
+    rw [← hi]
+    show (if hit.isEmpty = true then _ else _ : Item).kind = _ ∧ (if hit.isEmpty = true then _ else _ : Item).before = _
+    rw [if_pos hE]
+    exact ⟨rfl, rfl⟩
+  · intro hh
+    have hE : ¬ hit.isEmpty = true := by
+      cases hx : hit with
+      | nil => exact absurd hx hh
+      | cons a b => simp
+    rw [← hi]
+    show (if hit.isEmpty = true then _ else _ : Item).kind = _ ∧ (if hit.isEmpty = true then _ else _ : Item).before = _ ∧
+      (if hit.isEmpty = true then _ else _ : Item).after = _
+    rw [if_neg hE]
+    exact ⟨rfl, rfl, rfl⟩
+
 /-! ### non-vacuity -/
 
 example : ∃ item keys, stmtPhase1 { ncols := 2, pk := [0] } ⟨true, true⟩ [[.int 1, .int 5], [.int 2, .int 6]] [.int 2]
